@@ -78,6 +78,10 @@ func c15Decode(src []byte) *fw.Violation {
 	got, ok := implDecode(src)
 	cls := huffDecodeClass(src)
 	rep := map[string]any{"family": "decode", "hex": hex.EncodeToString(src)}
+	if !ok && bytes.HasPrefix(got, []byte("PANIC")) {
+		return &fw.Violation{Rule: "huffman-decode-panics", Shape: "ref=" + cls,
+			Detail: fmt.Sprintf("HuffmanDecode(%x) panicked instead of returning a string or an error (%s); RFC 7541: %s", src, got, cls), Replay: rep}
+	}
 	if werr != nil {
 		if ok {
 			return &fw.Violation{Rule: "huffman-decode-strict", Shape: "ref=" + cls + " impl=accept",
